@@ -548,8 +548,18 @@ class PskEnergyAnyOffset(Harness):
     def replay(self, cfg, name, model):
         fu = repo_module(FU)
         M = cfg['M']
+        # witness search on the real code: the model point, a grid, and
+        # offsets that put some cos/sin within delta of zero (where the
+        # clamp acts)
         phis = [float(model_floats(model).get('phi', 0.0))] + [
             -7 + 14 * i / 400.0 for i in range(401)]
+        for d in (0.0, 1e-16, 1e-15, 1e-14, 1e-12, 1e-9, 1e-6, 1e-4, 1e-3,
+                  1e-2, 0.1):
+            for sg in (1, -1):
+                for q in range(-4, 5):
+                    for k in range(M):
+                        phis.append(q * math.pi / 2 - 2 * math.pi * k / M +
+                                    sg * d)
         for phi in phis:
             c = fu.PSK._createConstellation(M, phi)
             e = np.abs(c)**2
@@ -1150,7 +1160,7 @@ class RejectBpsk(Harness):
                         detail=dict(i=ls, exc=repr(e)))
         if not legal:
             return dict(reproduced=True,
-                        key='C01/BPSK.modulate/index>=2:accepted',
+                        key='C01/BPSK.modulate/index>=M:accepted',
                         detail=dict(i=ls, emitted=repr(s)))
         want = [1 - 2 * l for l in ls]
         got = [int(v) for v in np.asarray(s).reshape(-1)]
@@ -1199,7 +1209,10 @@ class Ctor(Harness):
               'of two => the Gray permutation gray2binary(arange(M)) applied '
               'by the constructor contains an index >= M (so numpy raises '
               'IndexError whatever the floating-point assertion decides); '
-              'concrete sweep of PSK(M), QAM(M) for every M in 2..4100')
+              'exhaustive concrete sweep of PSK(M), QAM(M) for every M in '
+              '2..4100 (accept exactly the powers of two / of four with an '
+              'M-point table, reject every other order with an exception, '
+              'QAM with ValueError); 60 seeded orders in 4101..65535')
     outside = ('the constructor guards `2**math.log(M, 2) == M` and `power % '
                '2` are transcendental floating point (435 non-powers of two '
                'below 4100 PASS the PSK assertion and are rejected only by '
@@ -1222,35 +1235,69 @@ class Ctor(Harness):
         ctx.prove('non-pow2-order=>gray-index-out-of-range', g >= M)
         ga = conv.gray2binary(np.array([p], dtype=object))
         ctx.prove('array-form', ga[0] == g)
+        # exhaustive concrete sweep of the real constructors (outcome per M
+        # against the property's oracle); a failing M is a violation
+        # candidate confirmed by replay
+        bad = _concretely(ctx, lambda: self._sweep(cfg['lo'], cfg['hi']))
+        ctx.record('constructor-sweep', 'sat' if bad else 'unsat',
+                   'concrete-sweep', model=dict(M=bad[0][1]) if bad else {},
+                   detail=repr(bad[:3]))
+
+    @staticmethod
+    def _classify(fu, M):
+        """-> list of (class, M, outcome) where the constructor outcome
+        contradicts the property"""
+        out = []
+        k, o = _ctor_outcome(fu.PSK, M)
+        if _is_pow2(M):
+            if not (k == 'ok' and o.M == M and o.symbols.shape == (M, )):
+                out.append(('PSK', M, 'supported-order-rejected:%s' % (
+                    o if k == 'exc' else 'bad-table')))
+        elif k != 'exc':
+            out.append(('PSK', M, 'unsupported-order-accepted'))
+        k, o = _ctor_outcome(fu.QAM, M)
+        if _is_pow2(M) and (M.bit_length() - 1) % 2 == 0:
+            if not (k == 'ok' and o.M == M and o.symbols.shape == (M, )):
+                out.append(('QAM', M, 'supported-order-rejected:%s' % (
+                    o if k == 'exc' else 'bad-table')))
+        elif k != 'exc':
+            out.append(('QAM', M, 'unsupported-order-accepted'))
+        elif o != 'ValueError':
+            out.append(('QAM', M, 'rejected-with-%s-not-ValueError' % o))
+        return out
+
+    def _sweep(self, lo, hi):
+        fu = repo_module(FU)
+        bad = []
+        for M in range(lo, hi + 1):
+            bad += self._classify(fu, M)
+        return bad
 
     def replay(self, cfg, name, model):
         fu = repo_module(FU)
         M = int(model.get('M', 3))
-        kind, what = _ctor_outcome(fu.PSK, M)
-        bad = kind == 'ok' and not _is_pow2(M)
-        return dict(reproduced=bad, key='C01/PSK.__init__/non-pow2-accepted',
-                    detail=dict(M=M, outcome=what if kind == 'exc' else
-                                'constructed'))
+        bad = self._classify(fu, M)
+        if name != 'constructor-sweep':
+            bad = [b for b in bad if b[0] == 'PSK' and
+                   b[2] == 'unsupported-order-accepted']
+        if not bad:
+            return dict(reproduced=False, key=None,
+                        detail='constructor outcome for M=%d is as required'
+                        % M)
+        cls, M, what = bad[0]
+        return dict(reproduced=True,
+                    key='C01/%s.__init__/%s' % (cls, what),
+                    detail=dict(M=M, all=bad))
 
     def concrete(self, cfg, rng):
+        """seeded orders above the swept range"""
         fu = repo_module(FU)
         cnt = 0
-        for M in range(cfg['lo'], cfg['hi'] + 1):
-            k, o = _ctor_outcome(fu.PSK, M)
-            if _is_pow2(M):
-                ok = k == 'ok' and o.M == M and o.symbols.shape == (M, )
-            else:
-                ok = k == 'exc'
-            if not ok:
-                raise AssertionError('PSK(%d): %s %r' % (M, k, o))
-            k, o = _ctor_outcome(fu.QAM, M)
-            sq = _is_pow2(M) and (M.bit_length() - 1) % 2 == 0
-            if sq:
-                ok = k == 'ok' and o.M == M and o.symbols.shape == (M, )
-            else:
-                ok = k == 'exc' and o == 'ValueError'
-            if not ok:
-                raise AssertionError('QAM(%d): %s %r' % (M, k, o))
+        for _ in range(60):
+            M = rng.randrange(4101, 1 << 16)
+            bad = self._classify(fu, M)
+            if bad:
+                raise AssertionError('constructor outcome: %r' % (bad, ))
             cnt += 2
         return cnt
 
